@@ -213,3 +213,47 @@ Theorem c03_history_colwidth : forall W e json (h : list top),
                             end) (hist_records h)).
 Proof. exact text_history_colwidth. Qed.
 Print Assumptions c03_history_colwidth.
+
+(* RENDER-TIME CALLBACKS THAT CHANGE CELLS (Model/TextLive.v, Spec/TextPassSpec.v,
+   Proofs/TextPassProofs.v).  `regs` are the callbacks registered on the table,
+   its columns, rows and cells in registration order - the measuring callback
+   of every text wrapper among them, where texttable.Wrap was called; an
+   application callback gives the item of the cell it is handed its next
+   content and calls Cell.Update.  `render_seq W d regs t n` are n successive
+   Render() calls; `spec_view regs t j` is the table whose cells are as the
+   LAST measuring callback of render j found them. *)
+From Tab Require Import Model.TextLive Spec.TextPassSpec Proofs.TextLiveProofs.
+Local Open Scope nat_scope.
+
+(* Whatever the callbacks change and whenever they run, every render lays out
+   ONE table: width, height and lines of a cell all come from the same
+   measurement (a change made after it shows at the next render). *)
+Theorem c03_pass_shows_measured : forall W d regs t n j,
+  j < n ->
+  nth_error (render_seq W d regs t n) j = Some (text_render W d (spec_view regs t j)).
+Proof. exact pass_shows_measured. Qed.
+Print Assumptions c03_pass_shows_measured.
+
+(* ... so it is the flattened layout of that table ... *)
+Theorem c03_pass_refines : forall W d regs t n j,
+  j < n ->
+  1 <= pt_ncols t -> length (pt_align t) = S (pt_ncols t) -> dec_ok d -> cells_ok W (spec_view regs t j) ->
+  nth_error (render_seq W d regs t n) j
+  = Some (Ok (concat (map flatten (layout W d (spec_view regs t j))))).
+Proof. exact pass_refines. Qed.
+Print Assumptions c03_pass_refines.
+
+(* ... a rectangle with aligned dividers. *)
+Theorem c03_pass_rectangle : forall W d regs t j,
+  1 <= pt_ncols t -> dec_ok d -> cells_cover W (spec_view regs t j) ->
+  forall l1 l2, In l1 (layout W d (spec_view regs t j)) -> In l2 (layout W d (spec_view regs t j)) ->
+  dwidth l1 = dwidth l2 /\ divider_offsets l1 = divider_offsets l2.
+Proof. exact pass_rectangle. Qed.
+Print Assumptions c03_pass_rectangle.
+
+(* With a text wrapper on the table every cell is measured in every pass:
+   nothing shown depends on measurements left from before the history. *)
+Theorem c03_pass_every_cell_measured : forall regs ncols r c,
+  table_measures regs -> before_last_measure (cell_events regs ncols r c) <> None.
+Proof. exact table_measures_every_cell. Qed.
+Print Assumptions c03_pass_every_cell_measured.
